@@ -32,9 +32,6 @@ NOT_APPLICABLE = {
     'C17': ('the observable is process-level (argv parsing by clap, stdout text, exit status, files and zip archives written and read back); the library half '
             '(load_formulae, analyse_formulae) is string / file glue over std::fs, println! and the foreign model parsers, none of which has a Verus specification; '
             'a contract would consist of assumed models of exactly the parts the property is about. The evaluation the tool performs is covered by C01 / C04 / C15.'),
-    'C19': ('not decided in this round: explode_function / flatten_fn_update operate on the foreign types FnUpdate / BooleanNetwork of biodivine-lib-param-bn; a contract needs an '
-            'assumed evaluation semantics of FnUpdate and of BooleanNetwork::{add_parameter, find_parameter, set_update_function, as_graph} and the bnet printer / parser, '
-            'which together are most of the property; the remaining in-memory part (Shannon expansion enumerates each valuation once) was not built.'),
 }
 for _p in ['C%02d' % i for i in range(1, 21)]:
     NOT_APPLICABLE.setdefault(_p, _NOT_YET)
@@ -294,4 +291,25 @@ PROPS['C20'] = {
                    'is part of the trusted model of the graph library. Same trusted base as C01; attractor algorithm assumed; known findings D5 / D8.'),
     'explanation': 'spec/colour.rs (semg = semantics with the transition system as a parameter; lemma_semg_base: semg(base) == sem) in unit api; units ops and eval as for C01.',
     'trusted': _EVAL_TRUSTED, 'assumptions': _EVAL_ASSUME,
+}
+
+PROPS['C19'] = {
+    'units': ['conv'],
+    'level_text': ('Proof on the real code of the converter that (i) explode_function(regs, prefix) creates a zero-arity parameter named prefix + b1..bn for EVERY valuation '
+                   'string b1..bn of its arguments and returns a function that evaluates, under every valuation of the variables and every interpretation of the parameters, to '
+                   'the constant selected by the values of the arguments (Shannon expansion, induction over the argument list, recursion proved terminating), and (ii) '
+                   'flatten_fn_update returns a function over the original variables and constant inputs only (is_flat) that evaluates exactly like the original one with every '
+                   'uninterpreted f(args) read as the constant named f_<values of the flattened args> (fflat), constants, variables, negations and binary operators being reproduced; '
+                   'the parameter table only grows and existing parameters keep their names.'),
+    'level_note': ('PARTIAL. Not under contract: flatten_update_function (implicit update functions: regulators -> mk_var -> explode_function; skipping of regulator-free variables), main, '
+                   'the bnet printer / aeon parser of the library; the final step from "evaluates like fflat" to "ranges over exactly the instantiations" needs the injectivity of the naming '
+                   'scheme (name_ + bits is uniquely decodable) and is not a machine-checked lemma. Trusted: the model of FnUpdate / BooleanNetwork in prelude/conv_model.rs '
+                   '(constructors of the library, smart constructors specified through evaluation, parameter table as ghost functions). Known finding D11: add_parameter fails when a generated '
+                   'name is the name of a network VARIABLE and the converter unwraps the error (panic); D12 (nested uninterpreted functions made the converter panic) was found by this '
+                   'contract and repaired.'),
+    'explanation': 'contracts/conv.ctr; spec/conv.rs (exploded, fflat, covered, params_valid and their monotonicity lemmas); rules R-unwrapelse, R-hoist, R-fmt-val.',
+    'trusted': ['prelude/conv_model.rs: FnUpdate declared with the constructors of biodivine-lib-param-bn 0.7.2; negation / and / implies / mk_var specified by evaluation; BooleanNetwork::{find_parameter, add_parameter, get_parameter} '
+                'specified over a ghost parameter table (add_parameter: precondition "the name is not a variable name", returns Ok exactly when the name is not yet a parameter)',
+                'R-unwrapelse (Option::unwrap_or_else with a closure -> match), R-hoist (operands of one expression bound by let in evaluation order)'],
+    'assumptions': ['every parameter id occurring in an update function is a parameter of the network (params_valid)'],
 }
